@@ -1,10 +1,10 @@
 #!/bin/bash
-# usage: regress_seeded.sh <workers>   — runs every seeded change against its property's quick check in <workers>
+# usage: regress_seeded.sh <workers> [ids…]  — runs every seeded change against its property's quick check in <workers>
 # private workspaces (/tmp/reg_<k>: clone of /verif + detached worktree of /repo), then copies the verdicts back
 # into /verif/seeded/*/meta.json. /repo and /verif themselves are not touched while it runs.
 set -u
 N=${1:-4}
-ids=($(ls /verif/seeded))
+if [ $# -gt 1 ]; then shift; ids=("$@"); else ids=($(ls /verif/seeded)); fi
 for k in $(seq 0 $((N-1))); do
   d=/tmp/reg_$k
   rm -rf $d; mkdir -p $d
